@@ -117,6 +117,10 @@ def main():
 
     # 1. Lean: build, obligations, audit ------------------------------------------------------
     if args.no_lean:
+        rc, log = leanbuild.run(["lake", "build", f"driver_{args.id.lower()}"])
+        if rc != 0:
+            print("infrastructure: Lean driver does not build\n" + log[-3000:])
+            return 2
         lb = {"obligations": [], "discharged": [], "failures": [], "build_ok": True, "driver_ok": True,
               "axioms": {}, "wall_s": 0}
     else:
@@ -168,7 +172,7 @@ def main():
         seen.add(v["key"])
         p = core.write_replay(args.id, v)
         lines.append(f"VIOLATION property={args.id} replay={p}")
-    if not viol_R:
+    if True:
         for v in viol_F:
             if v["key"] in seen:
                 continue
